@@ -91,6 +91,11 @@ ASSUME NilPointerSkipsValidation => BuildAgreesWithDecl(ParamsFull \cup ParamsTy
 PureBatchIsProcessed == Done => (Processed <=> PureProcessed)
 PureNotifSilent ==
   (Done /\ Processed) => (shape = "nothing" <=> \A i \in DOMAIN entries : IsNotification(entries[i]))
+(* each valid request - and only a valid request - invokes its handler, with the declared arguments *)
+PureInvocations ==
+  Done => /\ \A i \in DOMAIN entries :
+               Count(log, LAMBDA v : v.e = i) = (IF Processed /\ Class(entries[i]) = "ok" THEN 1 ELSE 0)
+          /\ \A v \in Range(log) : v.e \in DOMAIN entries /\ v = DeclInv(v.e, entries[v.e])
 PureStdCodes ==
   (Done /\ Processed) => \A r \in Range(out) : r.e \in DOMAIN entries /\ ~IsNotification(entries[r.e])
                                                   => DeclRespOK(r.e, entries[r.e], r)
